@@ -153,8 +153,14 @@ impl Database {
                     continue;
                 }
                 let table_id = TableRefId::new(schema.id(), table.id());
-                let table = storage.get_table(table_id)?;
-                let txn = table.read().await?;
+                // a table dropped by another session since the catalog was listed has no
+                // statistics; it must not fail this (unrelated) statement
+                let Ok(table) = storage.get_table(table_id) else {
+                    continue;
+                };
+                let Ok(txn) = table.read().await else {
+                    continue;
+                };
                 let values = txn.aggreagate_block_stat(&[(
                     BlockStatisticsType::RowCount,
                     StorageColumnRef::Idx(0),
